@@ -440,3 +440,18 @@ Theorem pdu_roundtrip_total els : supported (TSeq els) = true -> wf_ty (TSeq els
 Proof.
   intros Hs Hw v Hv Hvw. exact (pdu_roundtrip_wf els Hs Hw v Hv Hvw (encode_total (TSeq els) v Hv)).
 Qed.
+
+(* Any.cast_out of what the encoder produced gives the value back (and, being a function of the tag list,
+   any number of times) *)
+Theorem cast_out_roundtrip t : supported t = true -> wf_ty t = true ->
+  forall v ts, has_ty t v -> encode t v = Ok ts -> cast_out t ts = Ok v.
+Proof.
+  intros Hs Hw v ts Hv He.
+  pose proof (roundtrip t Hs Hw v ts [] Hv He I) as Hrt. rewrite app_nil_r in Hrt.
+  destruct t; unfold cast_out; try (rewrite Hrt; reflexivity).
+  - cbn [has_ty] in Hv. destruct v as [x| | | |]; try contradiction.
+    cbn [encode] in He. injection He as <-. rewrite (leaf_check _ _ Hv). reflexivity.
+  - cbn [has_ty] in Hv. destruct v as [x| | | |]; try contradiction.
+    cbn [encode] in He. injection He as <-. cbn [decode] in Hrt.
+    destruct (anyatomic_obj x) as [[w|]|e]; cbn [bind] in *; try discriminate; injection Hrt as <-; reflexivity.
+Qed.
